@@ -142,7 +142,12 @@ impl<'a> WireFormat<'a> for ResourceRecord<'a> {
     fn write_to<T: std::io::Write>(&self, out: &mut T) -> crate::Result<()> {
         self.name.write_to(out)?;
         self.write_common(out)?;
-        out.write_all(&(self.rdata.len() as u16).to_be_bytes())?;
+        let rdata_len = self.rdata.len();
+        if rdata_len > u16::MAX as usize {
+            // RDLENGTH is a 16 bit field, larger RDATA can't be represented
+            return Err(crate::SimpleDnsError::InvalidDnsPacket);
+        }
+        out.write_all(&(rdata_len as u16).to_be_bytes())?;
         self.rdata.write_to(out)
     }
 
@@ -160,8 +165,13 @@ impl<'a> WireFormat<'a> for ResourceRecord<'a> {
         self.rdata.write_compressed_to(out, name_refs)?;
         let end = out.stream_position()?;
 
+        let rdata_len = end - len_position - 2;
+        if rdata_len > u16::MAX as u64 {
+            // RDLENGTH is a 16 bit field, larger RDATA can't be represented
+            return Err(crate::SimpleDnsError::InvalidDnsPacket);
+        }
         out.seek(std::io::SeekFrom::Start(len_position))?;
-        out.write_all(&((end - len_position - 2) as u16).to_be_bytes())?;
+        out.write_all(&(rdata_len as u16).to_be_bytes())?;
         out.seek(std::io::SeekFrom::End(0))?;
         Ok(())
     }
